@@ -341,6 +341,19 @@ def skeletons(tier):
                 ('B', [('T', 'inv', None)], [C('A', T_(C('G', T_(TB))))]),
                 ('E', [('T', 'inv', C('G', T_(num)))], [])]
             out.append(Skeleton(classes, 'F3 G<%s> A<%s> B<T>:A<G<T>> E<T:G<Number>>' % (vg, v1)))
+    # family 4: supertypes that carry use-site projections in nested positions
+    for vg in ('inv', 'out'):
+        TB = V('T', None)
+        for label, sup in (('A<G<out T>>', C('A', T_(C('G', ('out', TB))))),
+                           ('A<G<in G<T>>>', C('A', T_(C('G', ('in', C('G', T_(TB))))))),
+                           ('A<G<out G<T>>>', C('A', T_(C('G', ('out', C('G', T_(TB)))))))):
+            if vg == 'out' and 'in G' in label:
+                continue
+            classes = base_classes() + [
+                ('G', [('T', vg, None)], []),
+                ('A', [('T', 'inv', None)], []),
+                ('B', [('T', 'inv', None)], [sup])]
+            out.append(Skeleton(classes, 'F4 G<%s> A<inv> B<T>:%s' % (vg, label)))
     res = []
     for sk in out:
         tb = rsub.Table('Any')
